@@ -78,7 +78,11 @@ func (ts *TagSet) Merge(other *TagSet) *TagSet {
 	if other == nil || ts.Schema != other.Schema {
 		return ts
 	}
-	nl := ts.List // shallow copy
+	// copy the list: appending to ts.List directly would write into the
+	// backing array shared with the (global) definition whenever it has
+	// spare capacity.
+	nl := make([]*cbc.Definition, len(ts.List), len(ts.List)+len(other.List))
+	copy(nl, ts.List)
 	for _, t := range other.List {
 		found := false
 		for _, nlt := range nl {
